@@ -6,7 +6,7 @@ import copy
 from typing import Dict, List, Optional, Set, Tuple
 
 import reference.contracts as C
-from sa.analysis import Analysis
+from sa.analysis import VERSIONS, Analysis, vname
 from sa.feval import FevalError, feval
 from sa.model import AnalysisError, FunctionInfo, loc, norm_src
 
@@ -509,15 +509,23 @@ def r104(an, rep, b2i, i2b):
 
         def int_from_bytes(lst, order, signed=False):
             return int.from_bytes(bytes(lst), order, signed=signed)
+        from .c02 import module_consts
         try:
-            got = []
-            for i in (0, 2, 4):
-                b_ = feval(bc, {p: sample, iv: i})
-                # line: int.from_bytes([b[i+1]], 'big', signed=True)  -> evaluate structurally
-                l_ = _eval_signed(ln, p, iv, sample, i)
-                got.append((b_, l_))
-            ok = got == [(200, -128), (3, -1), (255, 127)]
-            detail = f"bytes {list(sample)} decode to {got}" + ("" if ok else ", expected [(200, -128), (3, -1), (255, 127)] (unsigned address delta, signed line delta)")
+            ok = True
+            detail = ""
+            for V in VERSIONS:
+                consts = module_consts(an, b2i.module.name, V)
+                got = []
+                for i in (0, 2, 4):
+                    b_ = feval(bc, {**consts, p: sample, iv: i})
+                    # line: int.from_bytes([b[i+1]], 'big', signed=True)  -> evaluate structurally
+                    l_ = _eval_signed(ln, p, iv, sample, i, consts)
+                    got.append((b_, l_))
+                if got != [(200, -128), (3, -1), (255, 127)]:
+                    ok = False
+                    detail = f"[{vname(V)}] bytes {list(sample)} decode to {got}, expected [(200, -128), (3, -1), (255, 127)] (unsigned address delta, signed line delta: a backward line step 0xFF is -1, not +255)"
+                    break
+                detail = f"bytes {list(sample)} decode to {got} on every interpreter version"
         except Exception as ex:
             raise AnalysisError(f"{b2i.qual}: entry expressions not evaluable: {ex}")
     rep.add("R10.4", f"{b2i.qual}::(unsigned, signed) pairs", ok, loc(b2i.module, comp), detail)
@@ -542,19 +550,20 @@ def r104(an, rep, b2i, i2b):
             "pairs are concatenated in order", nontrivial=False)
 
 
-def _eval_signed(expr, p, iv, sample, i):
+def _eval_signed(expr, p, iv, sample, i, consts=None):
     """Evaluate `int.from_bytes([b[i + 1]], "big", signed=True)` or an arithmetic equivalent."""
+    consts = consts or {}
     if isinstance(expr, ast.Call) and isinstance(expr.func, ast.Attribute) and expr.func.attr == "from_bytes":
-        arg = feval(expr.args[0], {p: sample, iv: i})
-        order = feval(expr.args[1], {}) if len(expr.args) > 1 else "big"
+        arg = feval(expr.args[0], {**consts, p: sample, iv: i})
+        order = feval(expr.args[1], consts) if len(expr.args) > 1 else "big"
         signed = False
         for k in expr.keywords:
             if k.arg == "signed":
-                signed = bool(feval(k.value, {}))
+                signed = bool(feval(k.value, consts))
             if k.arg == "byteorder":
-                order = feval(k.value, {})
+                order = feval(k.value, consts)
         return int.from_bytes(bytes(arg), order, signed=signed)
-    return feval(expr, {p: sample, iv: i})
+    return feval(expr, {**consts, p: sample, iv: i})
 
 
 def r105(an, rep):
